@@ -35,7 +35,7 @@ template<typename I> uint64_t search_digest(const I &ix, int q) { auto r = ix.se
 
 void zoo_build(const char *dir) {
     U x = 1000;
-    for (int i = 0; i < 3000; ++i) { x += (i % 11 == 0) ? 0 : 1 + (U(i) * 2654435761u % 53) * (i % 17 == 0 ? 4000 : 1); keys.push_back(x); }
+    for (int i = 0; i < 3000; ++i) { x += (i % 11 == 0 || (i > 500 && i <= 540)) ? 0 : 1 + (U(i) * 2654435761u % 53) * (i % 17 == 0 ? 4000 : 1); keys.push_back(x); }   // short duplicate runs, and one run of 41 equal keys (longer than any search window)
     pgm_idx = new pgm::PGMIndex<U, 4, 2>(keys.begin(), keys.end());
     comp_idx = new pgm::CompressedPGMIndex<U, 4, 2>(keys.begin(), keys.end());
     buck_idx = new pgm::BucketingPGMIndex<U, 4, 16, 32>(keys.begin(), keys.end());
@@ -58,7 +58,7 @@ const char *zoo_class_name(int c) { static const char *n[] = {"PGMIndex<u64,4,2>
 int zoo_queries(int) { return 8; }
 const char *zoo_query_name(int c, int q) {
     static const char *s[] = {"search(present)", "search(gap)", "search(last)", "search(0)", "search(above last)", "search(present2)", "search(far)", "search(before key)"};
-    static const char *m[] = {"lower_bound(present)", "upper_bound(gap)", "count(dup)", "contains(0)", "lower_bound(above last)", "upper_bound(dup)", "contains(far)", "count(absent)"};
+    static const char *m[] = {"lower_bound(present)", "upper_bound(gap)", "count(long dup run)", "contains(0)", "lower_bound(above last)", "upper_bound(long dup run)", "contains(far)", "count(absent)"};
     static const char *d[] = {"contains(stored)", "contains(absent)", "range(small box)", "range(slab with 70 misses)", "range(full)", "range(empty box)", "contains(beyond)", "range(corner)"};
     static const char *y[] = {"find(live)", "find(erased)", "count", "lower_bound(gap)", "lower_bound(below)", "range(20,90)", "full iteration", "begin+3"};
     return c <= 3 ? s[q] : c == 4 ? m[q] : c == 5 ? d[q] : y[q];
@@ -74,8 +74,8 @@ uint64_t zoo_run(int c, int q) {
             Fnv f; U k = probe(q);
             switch (q) {
                 case 0: case 4: f.add(map_idx->lower_bound(k) - map_idx->begin()); break;
-                case 1: case 5: f.add(map_idx->upper_bound(q == 5 ? keys[11] : k) - map_idx->begin()); break;
-                case 2: case 7: f.add(map_idx->count(q == 2 ? keys[11] : k)); break;
+                case 1: case 5: f.add(map_idx->upper_bound(q == 5 ? keys[520] : k) - map_idx->begin()); break;   // q5: inside the long run
+                case 2: case 7: f.add(map_idx->count(q == 2 ? keys[520] : k)); break;
                 default: f.add(map_idx->contains(k)); break;
             }
             return f.h;
